@@ -65,9 +65,19 @@ class AxisOperationBase(OperableAxis, ABC):
         pass
 
 
+def _as_operand(axis: Group | OperableAxis | ComputedAxis | int) -> Group | OperableAxis | ComputedAxis:
+    """Operands are operable axes or plain integers, arithmetic on constant or anonymous axes is not defined."""
+    if isinstance(axis, OperableAxis | ComputedAxis | Group):
+        return axis
+    if isinstance(axis, int):
+        return LiteralAxis(axis)
+    msg = f"unsupported operand {axis!r} for an axis expression"
+    raise TypeError(msg)
+
+
 class UnaryAxisOperationBase(AxisOperationBase):
     def __init__(self, axis: Group | OperableAxis | ComputedAxis | int) -> None:
-        self._axis = axis if isinstance(axis, OperableAxis | ComputedAxis | Group) else LiteralAxis(axis)
+        self._axis = _as_operand(axis)
 
 
 class ISqrt(UnaryAxisOperationBase):
@@ -94,8 +104,8 @@ class BinaryAxisOperationBase(AxisOperationBase):
         lhs: Group | OperableAxis | ComputedAxis | int,
         rhs: Group | OperableAxis | ComputedAxis | int,
     ) -> None:
-        self._lhs = lhs if isinstance(lhs, OperableAxis | ComputedAxis | Group) else LiteralAxis(lhs)
-        self._rhs = rhs if isinstance(rhs, OperableAxis | ComputedAxis | Group) else LiteralAxis(rhs)
+        self._lhs = _as_operand(lhs)
+        self._rhs = _as_operand(rhs)
 
     _PRECEDENCE: typing.ClassVar[int | None] = None
     """The precedence of an infix operator in the shape string grammar (None for functions)."""
